@@ -259,14 +259,13 @@ PREF_SHAPES = [(4, 4), (6, 6), (3, 4), (4, 6), (6, 4), (2, 3), (9, 9), (2, 2), (
 
 
 def _pair_plan(tier):
-    """[(shape index, dtype name, batchA, batchB)]"""
+    """batch-shape pairs / dtypes evaluated for the first and for the further common matrix shapes of a class pair"""
     f64, f32 = "float64", "float32"
-    first = [(f64, (), ()), (f64, (2,), (2,)), (f64, (2,), ()), (f64, (), (2,)), (f64, (1,), (2,)), (f64, (2, 1), (3,)),
-             (f32, (), ()), (f32, (2,), (1,))]
-    second = [(f64, (), ()), (f64, (3,), (1,)), (f32, (1, 2), (2,))]
+    first = [(f64, (), ()), (f64, (2,), (2,)), (f64, (2,), ()), (f64, (1,), (2,)), (f64, (2, 1), (3,)), (f32, (2,), (1,)), (f32, (), (2,))]
+    second = [(f64, (3,), (1,)), (f32, (), ())]
     if tier != "quick":
-        first += [(f64, (3, 1, 2), (2, 1)), (f64, (1, 1), ()), (f32, (2,), (2,)), (f32, (), (3, 2)), (f64, (2, 3), (2, 3))]
-        second += [(f64, (2,), (2,)), (f64, (), (2, 2)), (f32, (), ())]
+        first += [(f64, (), (2,)), (f64, (3, 1, 2), (2, 1)), (f64, (1, 1), ()), (f32, (2,), (2,)), (f32, (), (3, 2)), (f64, (2, 3), (2, 3)), (f32, (), ())]
+        second += [(f64, (), ()), (f64, (2,), (2,)), (f64, (), (2, 2)), (f32, (1, 2), (2,))]
     return first, second
 
 
@@ -296,7 +295,7 @@ def rtc_pairs(left_names, tier):
             mm = [(sa, sb) for sa in tabA.values() for sb in tabB.values() if sa[1] == sb[0] and sa != sb and max(sa + sb) <= 7]
             mm.sort(key=lambda p: (-(p[0][0] != p[0][1]) - (p[1][0] != p[1][1]), -sum(p[0] + p[1])))
             for i, (sa, sb) in enumerate(mm[: (1 if tier == "quick" else 3)]):
-                for (dtn, bA, bB) in (second if tier == "quick" else first):
+                for (dtn, bA, bB) in (second + first[:1] if tier == "quick" else first):
                     plans.append((sa, sb, dtn, bA, bB, False))
             for (sa, sb, dtn, bA, bB, addsub) in plans:
                 dt = getattr(torch, dtn)
@@ -319,7 +318,8 @@ def _pair_cell(rec, A, B, dt, bA, bB, nA, nB, addsub):
         torch.broadcast_shapes(da.shape[:-2], db.shape[:-2])
     except RuntimeError:
         return  # batch shapes that torch would not broadcast are outside the quantifier (C19)
-    lab = f"{A.name}[{_dts(da.dtype)}|b={tuple(da.shape[:-2])}|{da.shape[-2]}x{da.shape[-1]}] . {B.name}[b={tuple(db.shape[:-2])}|{db.shape[-2]}x{db.shape[-1]}]"
+    bc = "same" if da.shape[:-2] == db.shape[:-2] else "bcast"
+    lab = f"{A.name}[{_dts(da.dtype)}|b={tuple(da.shape[:-2])}|{da.shape[-2]}x{da.shape[-1]}] . {B.name}[b={tuple(db.shape[:-2])}|{db.shape[-2]}x{db.shape[-1]}]|{bc}"
     pd = A.psd and B.psd
     if addsub:
         # adding a root-form operator goes through add_low_rank (root decompositions): PSD operands only
@@ -337,18 +337,598 @@ def _pair_cell(rec, A, B, dt, bA, bB, nA, nB, addsub):
                 check_value(rec, f"sub_method/{A.name}-{B.name}", lab + "|sub(alpha=-1.5)", lambda: a.sub(b, alpha=-1.5), da + 1.5 * db)
         if pd and da.shape[-1] == da.shape[-2]:
             # operator-by-operator elementwise product (root decompositions): PSD operands
-            check_value(rec, f"mul_op/{A.name}*{B.name}", lab, lambda: a * b, da * db, scale=100.0)
+            check_value(rec, f"mul_op{'' if bc == 'same' else '_bcast'}/{A.name}*{B.name}", lab, lambda: a * b, da * db, scale=100.0)
     if da.shape[-1] == db.shape[-2]:
         check_value(rec, f"matmul/{A.name}@{B.name}", lab, lambda: a @ b, da @ db, scale=max(1, da.shape[-1]))
+
+
+
+# ------------------------------------------------------------------------------------------
+# per-case families: fresh instances over dtype x batch shape x size
+
+
+BATCHES_Q = [(), (2,), (1,), (2, 3), (1, 3)]
+BATCHES_T = BATCHES_Q + [(3, 1, 2), (1, 1), (2, 1)]
+SIZES_Q = [1, 3, 4]
+SIZES_T = [1, 2, 3, 4, 6]
+
+
+def _instances(names, tier, batches=None, sizes=None, dtypes=None, square=None, psd=None):
+    """yield (label, case, mk, dense): mk() builds a *fresh* operator with identical values"""
+    batches = batches or (BATCHES_Q if tier == "quick" else BATCHES_T)
+    sizes = sizes or (SIZES_Q if tier == "quick" else SIZES_T)
+    dtypes = dtypes or [torch.float64, torch.float32]
+    for name in names:
+        c = case_of(name)
+        if psd is not None and c.psd != psd:
+            continue
+        for dt, batch, n in itertools.product(dtypes, batches, sizes):
+            if not (dtype_ok(c, dt) and batch_ok(c, batch)) or (c.name == "tperm" and n > 3):
+                continue
+
+            def mk(c=c, dt=dt, batch=batch, n=n):
+                return build(c, dt, batch, n, "inst")[0]
+
+            try:
+                _, d = build(c, dt, batch, n, "inst")
+            except Exception as e:  # noqa
+                yield f"{c.name}|{_dts(dt)}|b={batch}|n={n}", c, None, e
+                continue
+            if square is not None and (d.shape[-1] == d.shape[-2]) != square:
+                continue
+            yield f"{c.name}|{_dts(d.dtype)}|b={tuple(d.shape[:-2])}|{d.shape[-2]}x{d.shape[-1]}", c, mk, d
+
+
+class _default_dtype:
+    def __init__(self, dt):
+        self.dt = dt
+
+    def __enter__(self):
+        self.old = torch.get_default_dtype()
+        torch.set_default_dtype(self.dt)
+
+    def __exit__(self, *a):
+        torch.set_default_dtype(self.old)
+
+
+def rtc_tensor_operands(names, tier):
+    """operator (+,-,*,/) tensor in both operand orders; tensor batch shapes: same / none / all-ones / extra leading / partial"""
+    _init()
+    rec = Recorder(PID)
+    for label, c, mk, d in _instances(names, tier):
+        if mk is None:
+            rec.check(f"construct/{c.name}", label, False, f"constructor raised {d!r}")
+            continue
+        op = mk()
+        dt = d.dtype
+        batch, (m, n) = tuple(d.shape[:-2]), d.shape[-2:]
+        g = zoo.gen(_seed(label, "T"))
+        shapes = {"same": (*batch, m, n), "extra": (3, *batch, m, n)}
+        if batch:
+            shapes["nobatch"] = (m, n)
+            shapes["ones"] = (*[1] * len(batch), m, n)
+        if len(batch) >= 2:
+            shapes["partial"] = (*batch[1:], m, n)
+        for kind, sh in shapes.items():
+            T = zoo.rn(g, *sh, dtype=dt)
+            Tnz = torch.where(T >= 0, T + 0.5, T - 0.5)
+            lab = f"{label}|T={kind}"
+            cn = c.name
+            check_value(rec, f"add_tensor/{cn}", lab + "|op+T", lambda: op + T, d + T)
+            check_value(rec, f"radd_tensor/{cn}", lab + "|T+op", lambda: T + op, T + d)
+            check_value(rec, f"sub_tensor/{cn}", lab + "|op-T", lambda: op - T, d - T)
+            check_value(rec, f"rsub_tensor/{cn}", lab + "|T-op", lambda: T - op, T - d)
+            check_value(rec, f"mul_tensor/{cn}", lab + "|op*T", lambda: op * T, d * T)
+            check_value(rec, f"rmul_tensor/{cn}", lab + "|T*op", lambda: T * op, T * d)
+            check_value(rec, f"div_tensor/{cn}", lab + "|op/T", lambda: op / Tnz, d / Tnz)
+            if kind in ("same", "extra", "nobatch"):
+                check_value(rec, f"add_tensor/{cn}", lab + "|op.add(T,alpha=-2)", lambda: op.add(T, alpha=-2.0), d - 2.0 * T)
+                check_value(rec, f"sub_tensor/{cn}", lab + "|op.sub(T,alpha=0.5)", lambda: op.sub(T, alpha=0.5), d - 0.5 * T)
+                check_value(rec, f"mul_tensor/{cn}", lab + "|op.mul(T)", lambda: op.mul(T), d * T)
+                check_value(rec, f"div_tensor/{cn}", lab + "|op.div(T)", lambda: op.div(Tnz), d / Tnz)
+    return rec.obligations()
+
+
+def rtc_scalars(names, tier):
+    """operator * c, c * operator, operator / c for every scalar kind"""
+    _init()
+    rec = Recorder(PID)
+    for label, c, mk, d in _instances(names, tier):
+        if mk is None:
+            rec.check(f"construct/{c.name}", label, False, f"constructor raised {d!r}")
+            continue
+        op = mk()
+        dt = d.dtype
+        batch = tuple(d.shape[:-2])
+        g = zoo.gen(_seed(label, "S"))
+        t = lambda v: torch.tensor(v, dtype=dt)  # noqa
+        kinds = [("py_pos", 2.5), ("py_neg", -1.5), ("py_zero", 0.0), ("py_int", 3), ("py_one", 1.0), ("py_negint", -2),
+                 ("t0_pos", t(2.5)), ("t0_neg", t(-1.5)), ("t0_zero", t(0.0)), ("t1_pos", t([2.5])), ("t11_neg", t([[-0.5]])), ("t111_pos", t([[[1.5]]]))]
+        if batch:
+            cb = zoo.rn(g, *batch, 1, 1, dtype=dt).abs() + 0.5
+            sg = torch.where(torch.arange(cb.numel()).reshape(cb.shape) % 2 == 0, 1.0, -1.0).to(dt)
+            kinds += [("tb_pos", cb), ("tb_mixed", cb * sg), ("tb_neg", -cb), ("tb_ones_shape", t(1.75).reshape(*[1] * len(batch), 1, 1)), ("tb_extra", zoo.rn(g, 3, *batch, 1, 1, dtype=dt).abs() + 0.5)]
+            z = cb.clone()
+            z.view(-1)[0] = 0.0
+            kinds.append(("tb_withzero", z))
+            if len(batch) >= 2:
+                kinds.append(("tb_partial_lead", zoo.rn(g, batch[0], *[1] * (len(batch) - 1), 1, 1, dtype=dt) - 0.3))
+                kinds.append(("tb_partial_trail", zoo.rn(g, batch[-1], 1, 1, dtype=dt).abs() + 0.5))
+        else:
+            kinds += [("tb_extra", zoo.rn(g, 3, 1, 1, dtype=dt) + 0.2), ("tb_extra2", zoo.rn(g, 2, 1, 1, 1, dtype=dt).abs() + 0.5)]
+        cn = c.name
+        for kind, cst in kinds:
+            lab = f"{label}|c={kind}"
+            exp = d * cst
+            # a 1-element constant with MORE dims than the operator: torch broadcasting adds leading batch dims of size 1
+            sfx = "_1elt_extra_dims" if (torch.is_tensor(cst) and cst.numel() == 1 and cst.dim() > d.dim()) else ""
+            check_value(rec, f"mul_scalar{sfx}/{cn}", lab + "|op*c", lambda: op * cst, exp, dtype=dt)
+            check_value(rec, f"rmul_scalar{sfx}/{cn}", lab + "|c*op", lambda: cst * op, exp, dtype=dt)
+            if kind in ("py_pos", "t0_neg", "tb_mixed", "tb_pos"):
+                check_value(rec, f"mul_scalar/{cn}", lab + "|op.mul(c)", lambda: op.mul(cst), exp, dtype=dt)
+            nonzero = bool((cst != 0).all()) if torch.is_tensor(cst) else cst != 0
+            if nonzero:
+                check_value(rec, f"div_scalar{sfx}/{cn}", lab + "|op/c", lambda: op / cst, d / cst, dtype=dt)
+                if kind in ("py_neg", "t0_pos", "tb_mixed"):
+                    check_value(rec, f"div_scalar/{cn}", lab + "|op.div(c)", lambda: op.div(cst), d / cst, dtype=dt)
+        # python scalars while torch's default dtype differs from the operator's dtype
+        other = torch.float64 if dt == torch.float32 else torch.float32
+        with _default_dtype(other):
+            lab = f"{label}|default={_dts(other)}"
+            check_value(rec, f"mul_scalar/{cn}", lab + "|c=py_pos|op*c", lambda: op * 2.5, d * 2.5, dtype=dt)
+            check_value(rec, f"rmul_scalar/{cn}", lab + "|c=py_neg|c*op", lambda: -1.5 * op, d * -1.5, dtype=dt)
+            check_value(rec, f"div_scalar/{cn}", lab + "|c=py_neg|op/c", lambda: op / -4.0, d / -4.0, dtype=dt)
+    return rec.obligations()
+
+
+def _perms(k):
+    return list(itertools.permutations(range(k)))
+
+
+def rtc_batch_ops(names, tier):
+    """expand / repeat / unsqueeze / squeeze / permute / transpose of batch dims / sum (every dim, None) / mT"""
+    _init()
+    rec = Recorder(PID)
+    for label, c, mk, d in _instances(names, tier):
+        if mk is None:
+            rec.check(f"construct/{c.name}", label, False, f"constructor raised {d!r}")
+            continue
+        op = mk()
+        cn = c.name
+        batch, (m, n) = tuple(d.shape[:-2]), d.shape[-2:]
+        nb = len(batch)
+        nd = nb + 2
+        # expand
+        targets = {"same": (*batch, m, n), "lead2": (2, *batch, m, n), "lead31": (3, 1, *batch, m, n)}
+        if 1 in batch:
+            targets["ones_to_3"] = (*[3 if b == 1 else b for b in batch], m, n)
+            targets["lead2_ones_to_3"] = (2, *[3 if b == 1 else b for b in batch], m, n)
+        for k, tgt in targets.items():
+            check_value(rec, f"expand/{cn}", f"{label}|expand{tgt}", lambda: op.expand(*tgt), d.expand(*tgt))
+            if k in ("lead2", "ones_to_3"):
+                check_value(rec, f"expand/{cn}", f"{label}|expand(Size{tgt})", lambda: op.expand(torch.Size(tgt)), d.expand(*tgt))
+                t2 = (*tgt[:-2], -1, -1)
+                check_value(rec, f"expand/{cn}", f"{label}|expand{t2}", lambda: op.expand(*t2), d.expand(*t2))
+        if batch:
+            # "Passing -1 as the size for a dimension means not changing the size of that dimension" (docstring of expand)
+            t3 = (2, *[-1] * nb, m, n)
+            check_value(rec, f"expand_minus1/{cn}", f"{label}|expand{t3}", lambda: op.expand(*t3), d.expand(*t3))
+        # repeat
+        reps = {"lead2": (2, *[1] * nd), "noop": tuple([1] * nd), "lead3x2": (3, 2, *[1] * nd)}
+        if batch:
+            reps["batch_x2"] = (*[2] * nb, 1, 1)
+            reps["lead2_batch_x3_first"] = (2, 3, *[1] * (nb - 1), 1, 1)
+        for k, r in reps.items():
+            check_value(rec, f"repeat/{cn}", f"{label}|repeat{r}", lambda: op.repeat(*r), d.repeat(*r))
+        # unsqueeze (only batch positions are supported)
+        for dim in list(range(0, nb + 1)) + [-(3 + i) for i in range(0, nb + 1)]:
+            check_value(rec, f"unsqueeze/{cn}", f"{label}|unsqueeze({dim})", lambda: op.unsqueeze(dim), d.unsqueeze(dim))
+        # squeeze: every dim, positive and negative
+        for dim in range(-nd, nd):
+            pos = dim % nd
+            is_mat = pos >= nb
+            check_value(rec, f"squeeze/{cn}", f"{label}|squeeze({dim})", lambda: op.squeeze(dim), d.squeeze(dim),
+                        want_tensor=(True if (is_mat and d.shape[pos] == 1) else False))
+        # permute / transpose of batch dims
+        if nb >= 1:
+            for pm in _perms(nb):
+                full = (*pm, nb, nb + 1)
+                exp = d.permute(*full)
+                check_value(rec, f"permute/{cn}", f"{label}|permute{full}", lambda: op.permute(*full), exp)
+                neg = (*pm, -2, -1)
+                check_value(rec, f"permute/{cn}", f"{label}|permute{neg}", lambda: op.permute(*neg), exp)
+            allneg = tuple(i - nd for i in _perms(nb)[-1]) + (-2, -1)
+            check_value(rec, f"permute/{cn}", f"{label}|permute(tuple{allneg})", lambda: op.permute(allneg), d.permute(*allneg))
+        if nb >= 2:
+            for (i, j) in [(0, 1), (1, 0), (0, nb - 1), (-3, -4), (-nd, nb - 1)]:
+                check_value(rec, f"transpose_batch/{cn}", f"{label}|transpose({i},{j})", lambda: op.transpose(i, j), d.transpose(i, j))
+            check_value(rec, f"transpose_batch_same_dim/{cn}", f"{label}|transpose(0,0)", lambda: op.transpose(0, 0), d.transpose(0, 0))
+        check_value(rec, f"transpose_mat/{cn}", f"{label}|transpose(-1,-2)", lambda: op.transpose(-1, -2), d.mT)
+        check_value(rec, f"transpose_mat/{cn}", f"{label}|transpose({nd - 2},{nd - 1})", lambda: op.transpose(nd - 2, nd - 1), d.mT)
+        # sum
+        check_value(rec, f"sum/{cn}", f"{label}|sum()", lambda: op.sum(), d.sum(), scale=max(1, m * n), want_tensor=True)
+        for dim in range(-nd, nd):
+            pos = dim % nd
+            check_value(rec, f"sum/{cn}", f"{label}|sum({dim})", lambda: op.sum(dim), d.sum(dim), scale=max(1, d.shape[pos]), want_tensor=(pos >= nb))
+    return rec.obligations()
+
+
+def _psd_dense_ok(d):
+    return d.shape[-1] == d.shape[-2]
+
+
+def rtc_diag_lowrank(names, tier):
+    """add_diagonal (0-d, 1-elt, full, batched, broadcast), add_jitter; on PSD operators add_low_rank, cat_rows, prod over batch dims"""
+    _init()
+    rec = Recorder(PID)
+    for label, c, mk, d in _instances(names, tier):
+        if mk is None:
+            continue  # reported by the other families
+        cn = c.name
+        dt = d.dtype
+        batch, (m, n) = tuple(d.shape[:-2]), d.shape[-2:]
+        nb = len(batch)
+        g = zoo.gen(_seed(label, "D"))
+        op = mk()
+        if m != n:
+            # declared unsupported for non-square operators: must raise, never return
+            done, r = rec.guard(f"add_diagonal_nonsquare/{cn}", label, lambda: op.add_diagonal(torch.ones(n, dtype=dt)), allowed=(RuntimeError, NotImplementedError))
+            if done:
+                rec.check(f"add_diagonal_nonsquare/{cn}", label, False, f"add_diagonal on a {m}x{n} operator returned a {type(r).__name__}")
+            continue
+        eye = torch.eye(n, dtype=dt)
+        diags = {"0d": torch.tensor(0.75, dtype=dt), "0d_neg": torch.tensor(-0.25, dtype=dt), "1elt": torch.tensor([1.25], dtype=dt), "full": zoo.rn(g, n, dtype=dt).abs() + 0.1,
+                 "full_signed": zoo.rn(g, n, dtype=dt)}
+        if batch:
+            diags["batched_full"] = zoo.rn(g, *batch, n, dtype=dt).abs() + 0.1
+            diags["batched_1"] = zoo.rn(g, *batch, 1, dtype=dt).abs() + 0.1
+            diags["ones_full"] = zoo.rn(g, *[1] * nb, n, dtype=dt)
+        if nb >= 2:
+            diags["partial_full"] = zoo.rn(g, *batch[1:], n, dtype=dt)
+            diags["partial_1"] = zoo.rn(g, *batch[1:], 1, dtype=dt)
+        for k, dg in diags.items():
+            emb = torch.diag_embed(dg.expand(*dg.shape[:-1], n)) if dg.dim() else dg * eye
+            check_value(rec, f"add_diagonal/{cn}", f"{label}|diag={k}{tuple(dg.shape)}", lambda: op.add_diagonal(dg), d + emb)
+        # diagonal with a larger batch shape than the operator: documented as "... N"; either broadcast correctly or raise explicitly
+        dg = zoo.rn(g, 3, *batch, n, dtype=dt)
+        check_value(rec, f"add_diagonal_bigger_batch/{cn}", f"{label}|diag=extra{tuple(dg.shape)}", lambda: op.add_diagonal(dg), d + torch.diag_embed(dg), allowed=(RuntimeError, NotImplementedError))
+        for jv in (None, 0.5, -0.125):
+            if jv is None:
+                check_value(rec, f"add_jitter/{cn}", f"{label}|jitter=default", lambda: op.add_jitter(), d + 1e-3 * eye)
+            else:
+                check_value(rec, f"add_jitter/{cn}", f"{label}|jitter={jv}", lambda: op.add_jitter(jv), d + jv * eye)
+        if not c.psd:
+            continue
+        # ---- operations defined through root decompositions: PSD operands
+        for k in (1, 2):
+            for bk, bsh in {"same": batch, "nobatch": ()}.items():
+                if bk == "nobatch" and not batch:
+                    continue
+                Bm = zoo.rn(g, *bsh, n, k, dtype=dt)
+                exp = d + Bm @ Bm.mT
+                for gr in (True, False):
+                    check_value(rec, f"add_low_rank/{cn}", f"{label}|B={bk}{tuple(Bm.shape)}|generate_roots={gr}",
+                                lambda: mk().add_low_rank(Bm, generate_roots=gr), exp, scale=10.0)
+        if n >= 1:
+            k = 2
+            Cm = zoo.rn(g, *batch, k, n, dtype=dt) * 0.3
+            Bm = Cm @ d  # cross_mat (k x n); then B A^+ B^T = C A C^T
+            Dm = Cm @ d @ Cm.mT + zoo.spd(g, batch, k, dt)
+            Dm = 0.5 * (Dm + Dm.mT)
+            exp = torch.cat([torch.cat([d, Bm.mT], -1), torch.cat([Bm, Dm], -1)], -2)
+            for gr in (True, False):
+                check_value(rec, f"cat_rows/{cn}", f"{label}|k={k}|generate_roots={gr}", lambda: mk().cat_rows(Bm, Dm, generate_roots=gr), exp, scale=10.0)
+        for dim in list(range(nb)) + [-(3 + i) for i in range(nb)]:
+            pos = dim % (nb + 2)
+            check_value(rec, f"prod/{cn}", f"{label}|prod({dim})", lambda: mk().prod(dim), d.prod(pos), scale=100.0)
+    return rec.obligations()
+
+
+def rtc_cat(names, tier):
+    """cat() / CatLinearOperator along every dim (matrix dims, every batch dim, positive and negative), operators mixed with tensors"""
+    _init()
+    from linear_operator.operators import cat as lo_cat
+
+    rec = Recorder(PID)
+    for label, c, mk, d in _instances(names, tier, sizes=([1, 3] if tier == "quick" else [1, 2, 3, 4])):
+        if mk is None:
+            continue
+        cn = c.name
+        dt = d.dtype
+        batch, (m, n) = tuple(d.shape[:-2]), d.shape[-2:]
+        nb = len(batch)
+        nd = nb + 2
+        g = zoo.gen(_seed(label, "C"))
+        op = mk()
+        op2 = build(c, dt, batch, n_for(c, (m, n)) or 1, "second")  # same case, same shape, other values
+        if tuple(op2[1].shape) != tuple(d.shape):
+            op2 = (mk(), d)
+        a2, d2 = op2
+        for dim in range(-nd, nd):
+            pos = dim % nd
+            tsh = list(d.shape)
+            tsh[pos] = 2
+            T = zoo.rn(g, *tsh, dtype=dt)
+            lab = f"{label}|dim={dim}"
+            check_value(rec, f"cat/{cn}", lab + "|cat([op,T])", lambda: lo_cat([op, T], dim=dim), torch.cat([d, T], pos))
+            check_value(rec, f"cat/{cn}", lab + "|cat([T,op,op2])", lambda: lo_cat([T, op, a2], dim=dim), torch.cat([T, d, d2], pos))
+            check_value(rec, f"cat/{cn}", lab + "|cat([op,op2])", lambda: lo_cat([op, a2], dim=dim), torch.cat([d, d2], pos))
+            check_value(rec, f"CatLinearOperator/{cn}", lab + "|Cat(op,op2,Dense(T))", lambda: O.CatLinearOperator(op, a2, O.DenseLinearOperator(T), dim=dim), torch.cat([d, d2, T], pos))
+        T = zoo.rn(g, *d.shape, dtype=dt)
+        r = lo_cat([T, T], dim=0)
+        rec.check("cat/all_tensors", label, torch.is_tensor(r) and torch.equal(r, torch.cat([T, T], 0)), "cat of tensors only must be torch.cat")
+    return rec.obligations()
+
+
+
+# ------------------------------------------------------------------------------------------
+# random multi-step expression programs
+
+
+class _Val:
+    """a program value: real-code value ``v`` (operator or tensor), dense oracle ``d``, whether it is known positive definite"""
+
+    def __init__(self, v, d, pd, text, mag):
+        self.v, self.d, self.pd, self.text, self.mag = v, d, pd, text, mag
+
+
+class _Abort(Exception):
+    pass
+
+
+PROG_BATCHES = [(), (), (2,), (1,), (3, 2), (1, 2), (3, 1)]
+
+
+def _cls(x):
+    return type(x).__name__ if isinstance(x, LinearOperator) else "Tensor"
+
+
+class _Prog:
+    def __init__(self, rec, idx, tier):
+        import random
+
+        self.rec = rec
+        self.rng = random.Random(_seed("prog", idx))
+        self.g = zoo.gen(_seed("progT", idx))
+        self.idx = idx
+        self.dt = self.rng.choice([torch.float64, torch.float64, torch.float32])
+        self.shape = self.rng.choice([(4, 4), (4, 4), (6, 6), (3, 4), (1, 1), (2, 2), (3, 3)])
+        self.square = self.shape[0] == self.shape[1]
+        self.names = [nm for nm in all_case_names() if n_for(case_of(nm), self.shape) is not None and dtype_ok(case_of(nm), self.dt)]
+        self.depth = self.rng.choice([1, 2, 2, 3, 3, 3] if tier == "quick" else [2, 3, 3, 4, 4])
+        self.nleaf = 0
+
+    # -- values
+    def leaf(self):
+        for _ in range(20):
+            c = case_of(self.rng.choice(self.names))
+            b = self.rng.choice(PROG_BATCHES)
+            if batch_ok(c, b):
+                break
+        self.nleaf += 1
+        v, d = build(c, self.dt, b, n_for(c, self.shape), "prog", self.idx, self.nleaf)
+        return _Val(v, d, c.psd, f"{c.name}[b={tuple(d.shape[:-2])}]", float(d.abs().max()) if d.numel() else 0.0)
+
+    def tensor(self, *shape):
+        return zoo.rn(self.g, *shape, dtype=self.dt)
+
+    def bshape(self, x):
+        """a batch shape broadcastable with x's"""
+        b = tuple(x.d.shape[:-2])
+        opts = [b, (), tuple(1 for _ in b), (2, *b) if len(b) < 2 else b]
+        return self.rng.choice(opts)
+
+    # -- one checked step
+    def step(self, opname, text, fn, exp, operands, pd=False, scale=1.0, allowed=UNSUPPORTED):
+        group = f"prog/{opname}/" + ",".join(_cls(o.v) if isinstance(o, _Val) else str(o) for o in operands)
+        label = f"p{self.idx}|{_dts(self.dt)}|{self.shape[0]}x{self.shape[1]}: {text}"
+        mag = max([o.mag for o in operands if isinstance(o, _Val)] + [float(exp.abs().max()) if exp.numel() else 0.0])
+        ref = max(1.0, float(exp.abs().max()) if exp.numel() else 1.0)
+        r = check_value(self.rec, group, label, fn, exp, scale=scale * max(1.0, mag / ref), allowed=allowed)
+        if r is None:
+            raise _Abort()
+        return _Val(r, exp, pd, text, mag)
+
+    def expr(self, depth):
+        if depth == 0:
+            return self.leaf()
+        x = self.expr(depth - 1)
+        return self.apply(x, depth)
+
+    def apply(self, x, depth):
+        R = self.rng
+        is_op = isinstance(x.v, LinearOperator)
+        b = tuple(x.d.shape[:-2])
+        m, n = x.d.shape[-2:]
+        if x.d.dim() < 2:
+            raise _Abort()
+        if not is_op:
+            # the value became a tensor (op @ T, T @ op, sum over a matrix dim ...): continue with tensor (.) operator
+            y = self.expr(R.randrange(0, depth))
+            if not isinstance(y.v, LinearOperator) or tuple(y.d.shape[-2:]) != (m, n):
+                raise _Abort()
+            try:
+                torch.broadcast_shapes(x.d.shape[:-2], y.d.shape[:-2])
+            except RuntimeError:
+                raise _Abort()
+            k = R.choice(["radd", "rsub", "rmul", "rmatmul"])
+            if k == "radd":
+                return self.step("radd", f"(T{tuple(x.d.shape)} + {y.text})", lambda: x.v + y.v, x.d + y.d, [x, y])
+            if k == "rsub":
+                return self.step("rsub", f"(T{tuple(x.d.shape)} - {y.text})", lambda: x.v - y.v, x.d - y.d, [x, y])
+            if k == "rmul":
+                return self.step("rmul", f"(T{tuple(x.d.shape)} * {y.text})", lambda: x.v * y.v, x.d * y.d, [x, y])
+            if n != m:
+                raise _Abort()
+            return self.step("rmatmul", f"(T{tuple(x.d.shape)} @ {y.text})", lambda: x.v @ y.v, x.d @ y.d, [x, y], scale=n)
+        choices = ["add", "add", "sub", "sub", "matmul", "mul_scalar", "mul_scalar", "div_scalar", "add_tensor", "rsub_tensor", "mul_tensor", "matmul_tensor", "rmatmul_tensor",
+                   "mT", "expand", "unsqueeze", "repeat", "cat"]
+        if m == n:
+            choices += ["add_diagonal", "add_jitter", "add_diagonal"]
+        if b:
+            choices += ["sum_batch", "sum_batch", "permute", "squeeze"]
+        if x.pd and m == n:
+            choices += ["mul_op", "add_low_rank", "cat_rows"] + (["prod"] if b else [])
+        k = R.choice(choices)
+        xt = x.text
+        if k in ("add", "sub", "matmul", "mul_op"):
+            y = self.expr(R.randrange(0, depth))
+            if not isinstance(y.v, LinearOperator) or y.d.dim() < 2:
+                raise _Abort()
+            try:
+                torch.broadcast_shapes(x.d.shape[:-2], y.d.shape[:-2])
+            except RuntimeError:
+                raise _Abort()
+            if k == "matmul":
+                if y.d.shape[-2] != n:
+                    if y.d.shape[-1] != n:
+                        raise _Abort()
+                    y = self.step("mT", f"{y.text}.mT", lambda: y.v.mT, y.d.mT, [y], pd=y.pd)
+                return self.step("matmul", f"({xt} @ {y.text})", lambda: x.v @ y.v, x.d @ y.d, [x, y], scale=n)
+            if tuple(y.d.shape[-2:]) != (m, n):
+                raise _Abort()
+            if k == "add":
+                if is_root(y.v) and not x.pd:
+                    x, y = y, x  # `non-PSD + root-form` is outside the quantifier; `root-form + non-PSD` is plain addition
+                    if is_root(y.v):
+                        raise _Abort()
+                return self.step("add", f"({x.text} + {y.text})", lambda: x.v + y.v, x.d + y.d, [x, y], pd=x.pd and y.pd)
+            if k == "sub":
+                if root_after_mul(y.v, -1) and not x.pd:
+                    raise _Abort()
+                return self.step("sub", f"({xt} - {y.text})", lambda: x.v - y.v, x.d - y.d, [x, y])
+            if not y.pd:
+                raise _Abort()
+            return self.step("mul_op", f"({xt} * {y.text})", lambda: x.v * y.v, x.d * y.d, [x, y], pd=True, scale=100.0)
+        if k in ("mul_scalar", "div_scalar"):
+            kind = R.choice(["py_pos", "py_neg", "t0_pos", "t0_neg", "tb", "tb_mixed"] if b else ["py_pos", "py_neg", "t0_pos", "t0_neg", "py_int"])
+            val = {"py_pos": 1.75, "py_neg": -0.75, "py_int": 2}.get(kind)
+            if kind.startswith("t0"):
+                val = torch.tensor(1.5 if kind == "t0_pos" else -2.0, dtype=self.dt)
+            if kind.startswith("tb"):
+                val = self.tensor(*b, 1, 1).abs() + 0.5
+                if kind == "tb_mixed":
+                    val = val * torch.where(torch.arange(val.numel()).reshape(val.shape) % 2 == 0, 1.0, -1.0).to(self.dt)
+            pos = bool((val > 0).all()) if torch.is_tensor(val) else val > 0
+            if k == "mul_scalar":
+                return self.step("mul_scalar", f"({xt} * {kind})", lambda: x.v * val, x.d * val, [x, kind], pd=x.pd and pos)
+            return self.step("div_scalar", f"({xt} / {kind})", lambda: x.v / val, x.d / val, [x, kind], pd=x.pd and pos)
+        if k in ("add_tensor", "rsub_tensor", "mul_tensor"):
+            T = self.tensor(*self.bshape(x), m, n)
+            ts = f"T{tuple(T.shape)}"
+            if k == "add_tensor":
+                return self.step("add_tensor", f"({xt} + {ts})", lambda: x.v + T, x.d + T, [x])
+            if k == "rsub_tensor":
+                return self.step("rsub_tensor", f"({ts} - {xt})", lambda: T - x.v, T - x.d, [x])
+            return self.step("mul_tensor", f"({xt} * {ts})", lambda: x.v * T, x.d * T, [x])
+        if k == "matmul_tensor":
+            T = self.tensor(*self.bshape(x), n, R.choice([1, 3, n]))
+            return self.step("matmul_tensor", f"({xt} @ T{tuple(T.shape)})", lambda: x.v @ T, x.d @ T, [x], scale=n)
+        if k == "rmatmul_tensor":
+            T = self.tensor(*self.bshape(x), R.choice([1, 2, m]), m)
+            return self.step("rmatmul_tensor", f"(T{tuple(T.shape)} @ {xt})", lambda: T @ x.v, T @ x.d, [x], scale=m)
+        if k == "mT":
+            return self.step("mT", f"{xt}.mT", lambda: x.v.mT, x.d.mT, [x], pd=x.pd)
+        if k == "expand":
+            tgt = (R.choice([2, 3]), *[(3 if (s_ == 1 and R.random() < 0.5) else s_) for s_ in b], m, n)
+            return self.step("expand", f"{xt}.expand{tgt}", lambda: x.v.expand(*tgt), x.d.expand(*tgt), [x], pd=x.pd)
+        if k == "unsqueeze":
+            dim = R.randrange(0, len(b) + 1)
+            return self.step("unsqueeze", f"{xt}.unsqueeze({dim})", lambda: x.v.unsqueeze(dim), x.d.unsqueeze(dim), [x], pd=x.pd)
+        if k == "squeeze":
+            dim = R.randrange(0, len(b))
+            return self.step("squeeze", f"{xt}.squeeze({dim})", lambda: x.v.squeeze(dim), x.d.squeeze(dim), [x], pd=x.pd)
+        if k == "repeat":
+            r = (2, *[R.choice([1, 1, 2]) for _ in b], 1, 1)
+            return self.step("repeat", f"{xt}.repeat{r}", lambda: x.v.repeat(*r), x.d.repeat(*r), [x], pd=x.pd)
+        if k == "permute":
+            pm = list(range(len(b)))
+            R.shuffle(pm)
+            full = (*pm, len(b), len(b) + 1)
+            return self.step("permute", f"{xt}.permute{full}", lambda: x.v.permute(*full), x.d.permute(*full), [x], pd=x.pd)
+        if k == "sum_batch":
+            dim = R.randrange(0, len(b))
+            dim = R.choice([dim, dim - len(b) - 2])
+            return self.step("sum_batch", f"{xt}.sum({dim})", lambda: x.v.sum(dim), x.d.sum(dim), [x], pd=x.pd, scale=max(1, x.d.shape[dim]))
+        if k == "cat":
+            from linear_operator.operators import cat as lo_cat
+
+            dim = R.choice([-1, -2] + ([0] if b else []))
+            y = self.leaf() if R.random() < 0.6 else None
+            if y is not None and tuple(y.d.shape) == tuple(x.d.shape):
+                return self.step("cat", f"cat([{xt}, {y.text}], {dim})", lambda: lo_cat([x.v, y.v], dim=dim), torch.cat([x.d, y.d], dim), [x, y])
+            tsh = list(x.d.shape)
+            tsh[dim] = 2
+            T = self.tensor(*tsh)
+            return self.step("cat", f"cat([{xt}, T{tuple(tsh)}], {dim})", lambda: lo_cat([x.v, T], dim=dim), torch.cat([x.d, T], dim), [x, "Tensor"])
+        if k == "add_diagonal":
+            kind = R.choice(["0d", "1elt", "full", "batched"] if b else ["0d", "1elt", "full"])
+            dg = {"0d": lambda: torch.tensor(0.5, dtype=self.dt), "1elt": lambda: torch.tensor([0.25], dtype=self.dt), "full": lambda: self.tensor(n).abs() + 0.1,
+                  "batched": lambda: self.tensor(*b, n).abs() + 0.1}[kind]()
+            emb = torch.diag_embed(dg.expand(*dg.shape[:-1], n)) if dg.dim() else dg * torch.eye(n, dtype=self.dt)
+            return self.step("add_diagonal", f"{xt}.add_diagonal({kind})", lambda: x.v.add_diagonal(dg), x.d + emb, [x, kind], pd=x.pd)
+        if k == "add_jitter":
+            return self.step("add_jitter", f"{xt}.add_jitter(0.25)", lambda: x.v.add_jitter(0.25), x.d + 0.25 * torch.eye(n, dtype=self.dt), [x], pd=x.pd)
+        if k == "add_low_rank":
+            Bm = self.tensor(*b, n, R.choice([1, 2]))
+            return self.step("add_low_rank", f"{xt}.add_low_rank(B{tuple(Bm.shape)})", lambda: x.v.add_low_rank(Bm), x.d + Bm @ Bm.mT, [x], pd=True, scale=10.0)
+        if k == "cat_rows":
+            Cm = self.tensor(*b, 2, n) * 0.3
+            Bm = Cm @ x.d
+            Dm = Cm @ x.d @ Cm.mT + zoo.spd(self.g, b, 2, self.dt)
+            Dm = 0.5 * (Dm + Dm.mT)
+            exp = torch.cat([torch.cat([x.d, Bm.mT], -1), torch.cat([Bm, Dm], -1)], -2)
+            return self.step("cat_rows", f"{xt}.cat_rows(k=2)", lambda: x.v.cat_rows(Bm, Dm), exp, [x], pd=True, scale=10.0)
+        if k == "prod":
+            dim = R.randrange(0, len(b))
+            return self.step("prod", f"{xt}.prod({dim})", lambda: x.v.prod(dim), x.d.prod(dim), [x], pd=True, scale=100.0)
+        raise _Abort()
+
+
+def rtc_programs(lo, hi, tier):
+    """random expression programs of depth <= 3 (quick) / <= 4 (thorough); every step is compared with its dense evaluation"""
+    _init()
+    rec = Recorder(PID)
+    for idx in range(lo, hi):
+        p = _Prog(rec, idx, tier)
+        if not p.names:
+            continue
+        try:
+            p.expr(p.depth)
+        except _Abort:
+            pass
+        except Exception as e:  # noqa  (harness/build errors are failures too: nothing may be silently skipped)
+            import traceback
+
+            rec.check("prog/harness", f"p{idx}", False, f"{type(e).__name__}: {e} @ {traceback.format_exc().strip().splitlines()[-3][:200]}")
+    return rec.obligations()
+
+
+def rtc_percase(names, tier, families):
+    """several per-case families in one process"""
+    obs = []
+    for f in families:
+        obs += globals()["rtc_" + f](names, tier)
+    return obs
+
+
+def _chunks(xs, k):
+    """k nearly equal interleaved chunks (interleaving balances cheap and expensive classes)"""
+    return [xs[i::k] for i in range(k) if xs[i::k]]
 
 
 def rtc_units(tier):
     names = all_case_names()
     us = []
-    chunk = 4 if tier == "quick" else 2
-    for i in range(0, len(names), chunk):
-        part = names[i:i + chunk]
-        us.append(Unit(f"C02/rtc/pairs[{','.join(part)}]", "contracts.rtc_C02", "rtc_pairs", (part, tier), engine="rtc", timeout_s=1500))
+    for i, part in enumerate(_chunks(names, 8 if tier == "quick" else 16)):
+        us.append(Unit(f"C02/rtc/pairs#{i}[{part[0]}..]", "contracts.rtc_C02", "rtc_pairs", (part, tier), engine="rtc", timeout_s=1500))
+    for i, part in enumerate(_chunks(names, 3 if tier == "quick" else 8)):
+        us.append(Unit(f"C02/rtc/tensor_scalar#{i}[{part[0]}..]", "contracts.rtc_C02", "rtc_percase", (part, tier, ("tensor_operands", "scalars")), engine="rtc", timeout_s=1500))
+    for i, part in enumerate(_chunks(names, 3 if tier == "quick" else 8)):
+        us.append(Unit(f"C02/rtc/batch_diag_cat#{i}[{part[0]}..]", "contracts.rtc_C02", "rtc_percase", (part, tier, ("batch_ops", "diag_lowrank", "cat")), engine="rtc", timeout_s=1500))
+    nprog, k = (6000, 3) if tier == "quick" else (16000, 8)
+    for i in range(k):
+        us.append(Unit(f"C02/rtc/programs#{i}", "contracts.rtc_C02", "rtc_programs", (i * nprog // k, (i + 1) * nprog // k, tier), engine="rtc", timeout_s=1500))
     return us
 
 
